@@ -17,7 +17,6 @@ use std::io;
 use std::sync::Mutex;
 
 use futures_util::future::Either;
-use parking_lot::RwLock;
 use tokio::sync::OwnedMutexGuard;
 use tracing::{trace, warn};
 
@@ -33,6 +32,7 @@ use crate::zonetree::{Rrset, SharedRr};
 use crate::zonetree::{SharedRrset, WritableZone, WritableZoneNode};
 
 use super::nodes::{Special, ZoneApex, ZoneNode};
+use super::sync::RwLock;
 use super::versioned::{Version, VersionMarker};
 
 //------------ WriteZone -----------------------------------------------------
